@@ -14,7 +14,21 @@ Esc(e) == [t |-> "esc", e |-> e]
 IC(c) == [k |-> "c", c |-> c]
 IR(lo, hi) == [k |-> "r", lo |-> lo, hi |-> hi]
 IE(e) == [k |-> "e", e |-> e]
+IP(name, neg) == [k |-> "p", name |-> name, neg |-> neg]
 Cls(neg, items) == [t |-> "cls", neg |-> neg, items |-> items]
+\* \p{name} / \P{name} as an atom
+Prop(name, neg) == [t |-> "prop", name |-> name, neg |-> neg]
+\* class sets (v): expression constructors, see ClassSet.tla
+SC(c) == [k |-> "c", c |-> c]
+SR(lo, hi) == [k |-> "r", lo |-> lo, hi |-> hi]
+SE(e) == [k |-> "e", e |-> e]
+SP(name, neg) == [k |-> "p", name |-> name, neg |-> neg]
+SQ(strs) == [k |-> "q", strs |-> strs]
+SU(xs) == [k |-> "u", xs |-> xs]
+SI(xs) == [k |-> "i", xs |-> xs]
+SS(xs) == [k |-> "s", xs |-> xs]
+SN(neg, x) == [k |-> "n", neg |-> neg, x |-> x]
+VCls(neg, x) == [t |-> "vcls", neg |-> neg, x |-> x]
 Cat(xs) == [t |-> "cat", xs |-> xs]
 Alt(xs) == [t |-> "alt", xs |-> xs]
 \* id is assigned by Number; name = <<>> for an unnamed group
@@ -98,7 +112,7 @@ NoFlags == Flags(FALSE, FALSE, FALSE, FALSE, FALSE)
 UFlags == Flags(FALSE, FALSE, FALSE, TRUE, FALSE)
 
 \* The ESSem environment of a flag record: v implies u.
-EnvOf(fl) == [i |-> fl.i, m |-> fl.m, s |-> fl.s, u |-> fl.u \/ fl.v, dev |-> {}]
+EnvOf(fl) == [i |-> fl.i, m |-> fl.m, s |-> fl.s, u |-> fl.u \/ fl.v, v |-> fl.v, dev |-> {}]
 EnvDev(fl, dev) == [EnvOf(fl) EXCEPT !.dev = dev]
 
 RECURSIVE StringsUpTo(_, _)
